@@ -5,7 +5,7 @@
     instance on every run. *)
 From Coq Require Import NArith ZArith QArith Qabs List Bool.
 From SV Require Import Bin.Struct Fmt.DmxCodes Fmt.DmxCodesProofs Fmt.DmxBin Fmt.DmxBinProofs Fmt.DmxKv1 Fmt.DmxKv1Proofs
-  Fmt.DmxScalar Fmt.DmxScalarProofs Text.Str Text.Escape Text.Tokenizer Text.TokGen Fmt.DmxKv2 Fmt.DmxKv2Proofs Fmt.DmxKv2Inst Gen.DmxCodes_gen.
+  Fmt.DmxScalar Fmt.DmxScalarProofs Text.Str Text.Escape Text.Tokenizer Text.TokGen Fmt.DmxKv2 Fmt.DmxKv2Proofs Fmt.DmxKv2Nested Fmt.DmxKv2NestedProofs Fmt.DmxKv2Inst Gen.DmxCodes_gen.
 Import ListNotations.
 
 (** The premises of the theorems below, for the configuration generated from today's source.  The check proves
@@ -183,6 +183,47 @@ Theorem kv2_flat_roundtrip : forall (T : tables) (o : opts) (fold : str -> str) 
   kv2_tables_ok T = true -> kv2_opts_ok o = true -> vtnames_ok T fold vtnames = true ->
   forall d, doc_ok T vtnames d = true -> parse_text T o fold vtnames (render_doc T d) = Some d.
 Proof. exact kv2_flat_roundtrip_gen. Qed.
+
+(** The fix-up pass: replacing element references by the UUID text of their target and resolving UUID texts against
+    the ids of the parsed elements (unknown ids stay stubs) are inverse on every graph with pairwise distinct ids —
+    sharing, self references and cycles, NULL and stub references are kept as such. *)
+Theorem kv2_link_flatten : forall g, graph_ok g = true -> link (flatten g) = Some g.
+Proof. exact link_flatten. Qed.
+
+(** Text and graph together, flat layout: export, tokenize, parse, link gives back the graph. *)
+Theorem kv2_flat_graph_roundtrip : forall (T : tables) (o : opts) (fold : str -> str) (vtnames : list str),
+  kv2_tables_ok T = true -> kv2_opts_ok o = true -> vtnames_ok T fold vtnames = true ->
+  forall g, graph_ok g = true -> doc_ok T vtnames (flatten g) = true ->
+  match parse_text T o fold vtnames (render_doc T (flatten g)) with Some d => link d | None => None end = Some g.
+Proof. exact kv2_flat_graph_roundtrip_gen. Qed.
+
+Theorem kv2_graph_premises_satisfiable :
+  graph_ok ex_gdoc && doc_ok pinned_tables pinned_vtnames (flatten ex_gdoc) = true.
+Proof. exact kv2_graph_example. Qed.
+
+(** KeyValues2, nested layout (the default), at the level of the text: elements used once are written as inline
+    blocks inside the attribute or element array that holds them, to any depth.  Parsing the exported text with the
+    full recursion of [_parse_kv2_element] gives back the tree of blocks, provided no *inline* element has an
+    attribute type keyword (any casing, with or without [_array], or [elementid]) as its type name: [ndoc_ok] asks
+    [type_is_keyword ty = false] of inline elements only — the writer puts the others at the top level. *)
+Theorem kv2_nested_roundtrip : forall (T : tables) (o : opts) (fold : str -> str) (vtnames : list str),
+  kv2_tables_ok T = true -> kv2_opts_ok o = true -> vtnames_ok T fold vtnames = true ->
+  forall d, ndoc_ok T fold vtnames d = true -> parsen_text T o fold vtnames (rendern_doc T d) = Some d.
+Proof. exact kv2_nested_roundtrip_gen. Qed.
+
+Theorem kv2_nested_premises_satisfiable : ndoc_ok pinned_tables (fun s => s) pinned_vtnames ex_ndoc = true.
+Proof. exact kv2_nested_example. Qed.
+
+(** The carve-out is real (the repaired defect): an inline element of type "element" inside an element array is read
+    as a UUID reference, one of type "int" in a scalar attribute as a typed attribute; neither text parses. *)
+Theorem kv2_inline_keyword_type_refuted :
+  let bad1 := [NElem [84] None [] [NAttr [97] s_element true [NInline (NElem s_element None [] [])]]]%N in
+  let bad2 := [NElem [84] None [] [NAttr [97] s_element false [NInline (NElem [105;110;116] None [] [])]]]%N in
+  (ndoc_ok pinned_tables (fun s => s) pinned_vtnames bad1 = false) /\
+  (parsen_text pinned_tables pinned_kv2_opts (fun s => s) pinned_vtnames (rendern_doc pinned_tables bad1) = None) /\
+  (ndoc_ok pinned_tables (fun s => s) pinned_vtnames bad2 = false) /\
+  (parsen_text pinned_tables pinned_kv2_opts (fun s => s) pinned_vtnames (rendern_doc pinned_tables bad2) = None).
+Proof. exact kv2_inline_keyword_refuted. Qed.
 
 Theorem kv2_premises_satisfiable :
   kv2_tables_ok pinned_tables && kv2_opts_ok pinned_kv2_opts && vtnames_ok pinned_tables (fun s => s) pinned_vtnames &&
